@@ -4,7 +4,9 @@ use crate::mv::*;
 use crate::rng::Rng;
 
 pub const NUMS_SMALL: &[u64] = &[0, 1, 2, 3];
-pub const NUMS_POOL: &[u64] = &[0, 0, 0, 1, 1, 1, 2, 2, 3, 9, 10, 11, 99, 100, 1 << 31, 1 << 32, MAX_SAFE - 1, MAX_SAFE, 100_000_000, 300_000_000, 2_100_000_000, 4_294_967_295, 5_000_000_000, 9_999_999_999, 10_000_000_000, 1_000_000_000_000, 900_719_900_000_000];
+pub const NUMS_POOL: &[u64] = &[0, 0, 0, 1, 1, 1, 2, 2, 3, 9, 10, 11, 99, 100, 1 << 31, 1 << 32, MAX_SAFE - 1, MAX_SAFE, 100_000_000, 300_000_000, 2_100_000_000, 4_294_967_295, 5_000_000_000, 9_999_999_999, 10_000_000_000, 1_000_000_000_000, 900_719_900_000_000,
+    // binary structure: carries out of packed fields, truncating casts
+    1 << 16, 1 << 20, (1 << 20) + 1, 1 << 24, 1 << 28, (1 << 32) + 5, 1 << 40, 1 << 48, 1 << 49];
 pub const ID_ATOMS: &[&str] = &[
     "0", "1", "2", "9", "10", "a", "A", "b", "alpha", "beta", "rc", "-", "--", "a-", "-a", "0a", "a0", "1a", "x", "X", "18446744073709551615",
     "18446744073709551614", "pre", "z", "Z", "0-0", "-0", "-1",
